@@ -111,3 +111,36 @@ Fixpoint exec2 (sched : list nat) (ws : list wop) (s : fs) (r1 r2 : rstate) : fs
   | S O :: tl => exec2 tl ws s (rstep s r1) r2
   | _ :: tl => if rdone r1 then exec2 tl ws s r1 (rstep s r2) else exec2 tl ws s r1 r2
   end.
+
+(* a finer reader: file.exists() and open(file) are two separate steps, the writer may run
+   in between *)
+Inductive rstate3 :=
+| R3Start
+| R3Exists                 (* exists() returned True, the file is not opened yet *)
+| R3Opened (c : cont)
+| R3Done (r : rres).
+Definition rstep3 (s : fs) (r : rstate3) : rstate3 :=
+  match r with
+  | R3Start => match peak s with
+               | None => R3Done RNone                      (* file.exists() is False *)
+               | Some _ => R3Exists
+               end
+  | R3Exists => match peak s with
+                | Some c => R3Opened c                     (* open(file): the inode *)
+                | None => R3Done RError                    (* FileNotFoundError *)
+                end
+  | R3Opened c => match c with
+                  | CVal v => R3Done (RSome v)
+                  | CEmpty => R3Done RError
+                  end
+  | R3Done x => R3Done x
+  end.
+Fixpoint exec3 (sched : list bool) (ws : list wop) (s : fs) (r : rstate3) : fs * rstate3 :=
+  match sched with
+  | [] => (s, r)
+  | true :: tl => match ws with
+                  | o :: ws' => exec3 tl ws' (wstep s o) r
+                  | [] => exec3 tl [] s r
+                  end
+  | false :: tl => exec3 tl ws s (rstep3 s r)
+  end.
